@@ -506,7 +506,7 @@ Qed.
 From Sketchnu Require Hashes Hll HllProofs.
 
 (* the register file of a history as the list registers[0], ..., registers[2^p - 1] *)
-Definition hll_reg_list (p seed : Z) (h : Hll.hll_hist) : list Z :=
+Definition hllq_reg_list (p seed : Z) (h : Hll.hll_hist) : list Z :=
   map (fun i : nat => Hll.hll_reg p seed h (Z.of_nat i)) (seq 0 (Z.to_nat (2 ^ p))).
 
 Lemma filter_map_length : forall {A B} (f : A -> B) (g : B -> bool) (l : list A),
@@ -531,14 +531,14 @@ Qed.
 
 Lemma occupied_le_n_hll : forall p seed h,
   hll_p_min <= p <= hll_p_max /\ 0 <= seed < 2 ^ 64 ->
-  length (hll_reg_list p seed h) = Z.to_nat (2 ^ p) /\
-  count_nz (hll_reg_list p seed h) <= Z.of_nat (length (nodup keyq_eq_dec (Hll.hll_keys_raw h))).
+  length (hllq_reg_list p seed h) = Z.to_nat (2 ^ p) /\
+  count_nz (hllq_reg_list p seed h) <= Z.of_nat (length (nodup keyq_eq_dec (Hll.hll_keys_raw h))).
 Proof.
   intros p seed h Hok. split.
-  { unfold hll_reg_list. rewrite map_length, seq_length. reflexivity. }
+  { unfold hllq_reg_list. rewrite map_length, seq_length. reflexivity. }
   set (idxn := fun k : key => Z.to_nat (Hll.spec_idx p (Hashes.fasthash64 k seed))).
   apply Z.le_trans with (Z.of_nat (length (nodup Nat.eq_dec (map idxn (Hll.hll_keys_raw h))))).
-  - unfold count_nz, hll_reg_list. rewrite filter_map_length.
+  - unfold count_nz, hllq_reg_list. rewrite filter_map_length.
     apply inj_le. apply NoDup_incl_length.
     + apply NoDup_filter. apply seq_NoDup.
     + intros i Hi. apply filter_In in Hi. destruct Hi as [_ Hi].
